@@ -8,6 +8,7 @@ PACKS = {
     "C20": "contracts.c20_numbers",
     "C17": "contracts.c17_order",
     "C12": "contracts.c12_atom",
+    "C13": "contracts.c13_deref",
 }
 
 
